@@ -41,8 +41,12 @@ int main(void)
 		char *cmd = strtok(line, " \n"), *kind = strtok(NULL, " \n"), *hx = strtok(NULL, " \n");
 		DrvStream ds; LHABasicReader *r; LHAFileHeader *h; unsigned count = 0;
 		if (!cmd || !kind || !hx) { puts("ERR args"); continue; }
-		if (!drv_stream_open(&ds, kind, hx)) { puts("ERR stream"); continue; }
+#ifdef LHASA_VERIF
+		{ char *fa = strtok(NULL, " \n"); drv_fail_at = fa ? strtoul(fa, NULL, 10) : 0; }
+#endif
+		if (!drv_stream_open(&ds, kind, hx)) { fputs("E streamfail", stdout); ds.stream = NULL; drv_stream_close(&ds); printf("\n"); fflush(stdout); continue; }
 		r = lha_basic_reader_new(ds.stream);
+		if (r == NULL) { fputs("E newfail", stdout); drv_stream_close(&ds); printf("\n"); fflush(stdout); continue; }
 		while ((h = lha_basic_reader_next_file(r)) != NULL && count < 10000) {
 			uint8_t d[8]; size_t got;
 			print_header(h);
